@@ -176,4 +176,7 @@ def run(tier, seed):
 
 
 def replay(path):
-    return run("quick", 0)
+    # the whole check is deterministic in (tier, seed): re-run it with the replay file's values
+    import json
+    body = json.load(open(path))
+    return run(body.get("tier", "quick"), int(body.get("seed", 0)))
